@@ -34,7 +34,7 @@ type aofCfg struct {
 	Pipeline bool   `json:"pipeline"` // pipelined sending
 	Count    uint   `json:"count"`    // BatchCmdCount
 	Bytes    uint64 `json:"bytes"`    // BatchBufferSize
-	DbMode   string `json:"dbmode"`   // "id" | "map12" | "all0"
+	DbMode   string `json:"dbmode"`   // "id" | "map12" | "all0" | "shift" | "swap"
 }
 
 func (c aofCfg) String() string {
@@ -62,6 +62,11 @@ func (c aofCfg) model(startDB int) modelCfg {
 		m.DbMap = map[int]int{1: 2}
 	case "all0":
 		m.TargetDb = 0
+	case "shift":
+		// a target db number that is also a source db number mapped elsewhere
+		m.DbMap = map[int]int{0: 1, 1: 2}
+	case "swap":
+		m.DbMap = map[int]int{0: 1, 1: 0}
 	}
 	return m
 }
